@@ -21,8 +21,14 @@ NAME_CHARS = string.ascii_uppercase + string.digits + "'*+-_#"
 SAFE_LETTERS = "ABCDFGHIJKLMNOPQRSTUVWXYZ"   # a letter that cannot be part of a float literal (no E)
 
 
-def _name(rng, maxlen=5, minlen=1):
+WIDE_CHARS = NAME_CHARS + string.ascii_lowercase + ".,:;@/"
+
+
+def _name(rng, maxlen=5, minlen=1, wide=False):
     n = rng.randint(minlen, maxlen)
+    if wide and rng.random() < 0.35:
+        # any non-blank characters: lower case, dots, names without a letter ("1", "2+", "1.5")
+        return "".join(rng.choice(WIDE_CHARS) for _ in range(n))
     chars = [rng.choice(NAME_CHARS) for _ in range(n)]
     chars[rng.randrange(n)] = rng.choice(SAFE_LETTERS)
     s = "".join(chars)
@@ -100,8 +106,13 @@ def gen_session(rng, tier, for_crash=False):
             title = title[:len(title) // 2] + rng.choice(["\u03c3 = 0.34 nm", "\u00c5", "\u03b5\u03b5", "caf\u00e9 \u2013 25 \u00b0C"]) + title[len(title) // 2:]
     box = None
     kind = rng.choice(["none", "vec", "diag", "tric", "tric", "vec"])
+    box_form = rng.choice(["float_array", "float_array", "list", "int_array"])
     if kind == "vec":
         box = [round(rng.uniform(0.5, 60), rng.randint(0, 7)) for _ in range(3)]
+        if rng.random() < 0.15:
+            box = [round(rng.uniform(100, 999), 3) for _ in range(3)]       # edges of three digits
+        if box_form == "int_array":
+            box = [float(max(1, round(x))) for x in box]
     elif kind == "diag":
         v = [rng.uniform(0.5, 60) for _ in range(3)]
         box = np.diag(v).tolist()
@@ -117,14 +128,15 @@ def gen_session(rng, tier, for_crash=False):
     declared = rng.random() < 0.45
     records = []
     resid = _number(rng)
-    resname = _name(rng)
+    wide = not for_crash          # (C14 needs names that cannot be read as numbers, see DESIGN)
+    resname = _name(rng, wide=wide)
     atomid = _number(rng)
     for i in range(n):
         if rng.random() < 0.3:
             resid = _number(rng) if rng.random() < 0.3 else resid + 1
-            resname = _name(rng)
+            resname = _name(rng, wide=wide)
         atomid = _number(rng) if rng.random() < 0.1 else atomid + 1
-        rec = [resid, resname, _name(rng), atomid] + [_coord(rng, d, 4) for _ in range(3)]
+        rec = [resid, resname, _name(rng, wide=wide), atomid] + [_coord(rng, d, 4) for _ in range(3)]
         if vel:
             rec += [_coord(rng, d + 1, 3) for _ in range(3)]
         records.append(rec)
@@ -136,7 +148,10 @@ def gen_session(rng, tier, for_crash=False):
         # the records arrive in several pieces: writelines() chunks and single writeline() calls in any mixture
         cuts = sorted(rng.sample(range(1, n), rng.randint(1, min(4, n - 1))))
         chunks = [[b - a, rng.choice(["writelines", "writelines", "writeline"])] for a, b in zip([0] + cuts, cuts + [n])]
-    return {"title": title, "box": box, "fmt": fmt, "declared": declared, "config": config,
+    # the count may also be declared only after some records have gone out (it is known once the selection is done)
+    natoms_after = rng.randint(1, n) if declared and rng.random() < 0.2 else None
+    return {"title": title, "box": box, "fmt": fmt, "declared": declared, "config": config, "natoms_after": natoms_after,
+            "box_form": box_form if kind == "vec" or box_form != "int_array" else "float_array",
             "box_late": box_late, "records": records, "use_with": rng.random() < 0.5,
             "writelines": rng.random() < 0.3, "tuple_records": rng.random() < 0.3, "chunks": chunks}
 
@@ -183,7 +198,7 @@ def simplify(trace):
                 t = dict(trace)
                 t["session"] = dict(s, records=part)
                 yield t
-    for key, val in (("title", None), ("box", None), ("declared", False), ("box_late", False),
+    for key, val in (("title", None), ("box", None), ("declared", False), ("natoms_after", None), ("box_late", False),
                      ("use_with", False), ("writelines", False), ("tuple_records", False), ("chunks", None)):
         if s.get(key):
             ns = dict(s)
@@ -253,7 +268,15 @@ def run_session(session, path, seam, ctx, prop):
 
     def set_box():
         b = session["box"]
-        f.box_matrix = np.array(b, dtype=float)
+        form = session.get("box_form", "float_array")
+        if form == "int_array":
+            f.box_matrix = np.array(b).astype(np.int64)
+            ctx.probe("box_as_integer_array")
+        elif form == "list" and np.array(b).shape == (3, 3):
+            # (a plain nested list is not an array: handed over as an array built from it without a dtype)
+            f.box_matrix = np.array([list(r) for r in b])
+        else:
+            f.box_matrix = np.array(b, dtype=float)
 
     for item in session["config"]:
         if item == "title":
@@ -262,7 +285,7 @@ def run_session(session, path, seam, ctx, prop):
             set_box()
         elif item == "fmt":
             f.position_format = tuple(session["fmt"])
-        elif item == "natoms":
+        elif item == "natoms" and not session.get("natoms_after"):
             f.natoms = len(session["records"])
     recs = [tuple(r) if session.get("tuple_records") else list(r) for r in session["records"]]
     if len(session["records"]) % 4 == 1:
@@ -276,7 +299,15 @@ def run_session(session, path, seam, ctx, prop):
             return l + "".join("%8.4f" % x for x in r[7:10])
         recs = [fmt_line(r) for r in session["records"]]
         ctx.probe("records_as_formatted_strings")
-    if session.get("chunks") and sum(c[0] for c in session["chunks"]) == len(recs):
+    if session.get("natoms_after"):
+        k_ = min(session["natoms_after"], len(recs))
+        for r in recs[:k_]:
+            f.writeline(r)
+        f.natoms = len(recs)
+        for r in recs[k_:]:
+            f.writeline(r)
+        ctx.probe("count_declared_after_some_records")
+    elif session.get("chunks") and sum(c[0] for c in session["chunks"]) == len(recs):
         pos = 0
         for size, how in session["chunks"]:
             part = recs[pos:pos + size]
@@ -373,9 +404,23 @@ def check_roundtrip(session, image, path, ctx):
     lens = {len(l.encode()) for l in raw_lines}
     if len(lens) > 1:
         ctx.violate(P, "line-length", f"atom lines of the written file have different byte lengths: {sorted(lens)}")
-    exp_len = 20 + (d + 5) * (6 if vel else 3)
-    if lens and lens != {exp_len}:
-        ctx.violate(P, "line-width", f"atom lines are {sorted(lens)} bytes, expected {exp_len} for decimals={d} velocities={vel}")
+    # layout as the FILE has it: field width and decimals of the position and of the velocity columns
+    l0 = raw_lines[0]
+    nd = 6 if vel else 3
+    w0 = (len(l0) - 20) // nd
+    dec_of = lambda k: w0 - 1 - l0[20 + k * w0:20 + (k + 1) * w0].index(".")
+    try:
+        d_pos, d_vel = dec_of(0), (dec_of(3) if vel else None)
+    except ValueError:
+        ctx.violate(P, "line-width", f"atom line {l0!r} does not consist of {nd} equal fields with a decimal point each")
+        return
+    if (w0, d_pos) != (d + 5, d) or (len(l0) - 20) % nd:
+        ctx.violate(P, "line-width", f"position columns are {w0} wide with {d_pos} decimals; the position format is "
+                                     f"({d + 5}, {d}) (atom lines of {sorted(lens)} bytes)")
+    # nothing after the box line but the end of the file
+    tail = image.decode("utf-8").split("\n")[3 + n:]
+    if tail != [""]:
+        ctx.violate(P, "file-tail", f"the written file does not end with its box line and one newline: {tail[:3]!r} follows")
     # (b) the real reader
     try:
         r = GroFile(path)
@@ -389,10 +434,15 @@ def check_roundtrip(session, image, path, ctx):
             for _ in range(r.natoms):
                 got.append(next(r))
             # random access must agree with sequential reading
-            k = (len(recs) * 7) % len(recs)
-            r.seek_atom(k)
-            if tuple(next(r)) != tuple(got[k]):
-                ctx.violate(P, "random-access", f"seek_atom({k}) + next returned another record than sequential reading")
+            nrec = len(recs)
+            for k in sorted({0, nrec - 1, nrec // 2, (nrec * 7 + 3) % nrec, (nrec * 13 + 1) % nrec}, reverse=(nrec % 2 == 0)):
+                r.seek_atom(k)
+                if tuple(next(r)) != tuple(got[k]):
+                    ctx.violate(P, "random-access", f"seek_atom({k}) + next returned another record than sequential reading")
+                    break
+                if k + 1 < nrec and tuple(next(r)) != tuple(got[k + 1]):
+                    ctx.violate(P, "random-access", f"the record after seek_atom({k}) is not record {k + 1}")
+                    break
         natoms = r.natoms
         box = np.array(r.box_matrix, dtype=float)
         comment = r.comment
@@ -417,7 +467,7 @@ def check_roundtrip(session, image, path, ctx):
                             key="wrap")
                 break
             tol_p = 0.5 * 10 ** (-d) * (1 + 1e-9) + 1e-12
-            tol_v = 0.5 * 10 ** (-(d + 1)) * (1 + 1e-9) + 1e-12
+            tol_v = 0.5 * 10 ** (-(d_vel if d_vel is not None else d + 1)) * (1 + 1e-9) + 1e-12
             bad = [k for k in range(4, 7) if abs(g[k] - w[k]) > tol_p]
             bad += [k for k in range(7, len(w)) if abs(g[k] - w[k]) > tol_v]
             if bad:
@@ -541,14 +591,18 @@ def check_crash_points(trace, session, ops, complete, d, ctx):
             return "accepted-wrong"
         return "accepted"
 
+    def incomplete(data):
+        """The statement's rule, whatever order the writer works in: the image lacks its atom count (the session was not
+        closed) or ends at or before the first byte of the box line."""
+        ls = data.split(b"\n")
+        count_missing = len(ls) < 2 or not ls[1].strip()
+        return count_missing or len(data) <= box_start
+
     # (1) every operation boundary
     outcomes = []
     for k in range(len(ops) + 1):
         data = image_after(ops, k)
-        # before the last write (the newline after the box line) the session is not closed; the image
-        # "ends before its box line" exactly when the box write has not started
-        box_write_idx = last_write_idx - 1
-        must_reject = k <= box_write_idx
+        must_reject = incomplete(data)
         res = judge(data, f"op-boundary:{k}/{len(ops)}", must_reject)
         ctx.fault("stop_before_op")
         outcomes.append(res[0])
@@ -561,9 +615,7 @@ def check_crash_points(trace, session, ops, complete, d, ctx):
         data_len = len(ops[i][1].encode())
         for j in range(1, data_len):
             data = image_after(ops, i, torn_bytes=j)
-            box_write_idx = last_write_idx - 1
-            must_reject = i < box_write_idx
-            judge(data, f"torn-write:{i}+{j}", must_reject)
+            judge(data, f"torn-write:{i}+{j}", incomplete(data))
             ctx.fault("torn_write")
             if i >= last_write_idx - 3:
                 ctx.probe("torn_in_close")
